@@ -122,6 +122,10 @@ def opOfJson (j : Json) : Except String Op := do
   | "rm_rxns" => pure (.removeRxns (← (← (← j.getObjVal? "rs").getArr?).toList.mapM (·.getStr?)) (← (← j.getObjVal? "orphans").getBool?))
   | "imul" => pure (.imul (← s "r") (← parseRat (← s "k")))
   | "add_rxn" => pure (.addRxn (← s "r") (← parseEB (← s "lb")) (← parseEB (← s "ub")) (← pairsOf (← j.getObjVal? "st")))
+  | "add_rxn_r" => do
+    match fromString (← s "rule") with
+    | .rule g => pure (.addRxnR (← s "r") (← parseEB (← s "lb")) (← parseEB (← s "ub")) (← pairsOf (← j.getObjVal? "st")) g)
+    | .malformed => throw "malformed rule"
   | "add_boundary" => do
     let t ← match (← s "type") with
       | "exchange" => pure BType.exchange
